@@ -198,6 +198,44 @@ def r19_5(ck, F):
                   b.loc(bad[0][0]) if bad else None)
 
 
+def r19_5b(ck, F):
+    ck.rule("R19.5b", "a held-back connection failure is reported when the queue ends: in rch::mpsc::Receiver::{recv, poll_recv, "
+            "try_recv, recv_many} every path from the `queue closed` outcome of the local queue operation (None / Disconnected / "
+            "0 received) to a return passes take_error() (or final_err.take()), whose Some outcome is returned as the error",
+            "connection to a live remote sender fails, consumer uses the poll path (Stream::next, oneshot receiver future): the "
+            "stored failure is swallowed and the consumer sees a regular end-of-stream / Closed instead of the connection error",
+            floor=4)
+    R = "rch::mpsc::receiver::Receiver::"
+    for m, q in (("recv", "tokio::sync::mpsc::Receiver::recv"), ("poll_recv", "tokio::sync::mpsc::Receiver::poll_recv"),
+                 ("try_recv", "tokio::sync::mpsc::Receiver::try_recv"), ("recv_many", "tokio::sync::mpsc::Receiver::recv_many")):
+        b = F.main_body(R + m)
+        uses_q = lambda x: bool(mir.calls_in(x, q))        # noqa: E731
+        if m == "recv_many":
+            ended = [tb for sb, tb, mm, e in switch_edges(b, lambda e: e[0] == "bin" and e[1] in ("Eq", "Ne") and uses_q(e))
+                     if (mm is True) == (switch_expr(b, sb)[1] == "Eq")]
+        else:
+            want = "Disconnected" if m == "try_recv" else "None"
+            ended = [tb for sb, tb, mm, e in outcome_edges(b, None, uses_q) if mm == want]
+        if not ended:
+            raise mir.AnchorMissing(f"`queue closed` outcome of {q} in {R}{m}")
+        takes = {bb for bb, t in b.calls("rch::mpsc::receiver::Receiver::take_error")} | \
+                {bb for bb, t in b.calls("std::option::Option::take") if mir.last_field(b.expr(t["a"][0])) == "final_err"}
+        p = b.find_path(ended, b.returns(), avoid=takes)
+        ck.expect(bool(takes) and p is None, f"mpsc::Receiver::{m}#held-back-error-surfaces",
+                  "queue closed -> take_error() before returning",
+                  f"{R}{m} can return from the `queue closed` outcome without consulting the held-back final error: a connection "
+                  f"failure is reported as a regular end of the channel", b.loc(ended[0]), {"path": [b.loc(x) for x in (p or [])][:10]})
+        # and the Some outcome of that take is returned as an error (not dropped)
+        ok = False
+        for sb, tb, mm, e in outcome_edges(b, None, lambda x: bool(mir.calls_in(x, "rch::mpsc::receiver::Receiver::take_error")) or
+                                           (bool(mir.calls_in(x, "std::option::Option::take")) and "final_err" in mir.show(x))):
+            if mm == "Some":
+                errs = {x for x, i, v in b.result_stores("Err")} | {x for x, i, rv in b.aggregates("std::result::Result", "Err")}
+                ok = ok or bool(b.reach([tb], avoid=[sb]) & errs)
+        ck.expect(ok, f"mpsc::Receiver::{m}#held-back-error-returned", "Some(err) from take_error() is returned as Err",
+                  f"{R}{m} does not return the held-back error obtained from take_error()", b.loc(ended[0]))
+
+
 def r19_6(ck, F):
     ck.rule("R19.6", "a caller that went away while the reply was in flight is not a server error: in the task spawned by "
             "rtc::send_reply the SendingErrorKind::Dropped edge and the SendingErrorKind::Send(SendErrorKind::Send) edge never "
@@ -242,5 +280,5 @@ def r19_6(ck, F):
 
 
 def run(ck, F):
-    for r in (r19_1, r19_2, r19_3, r19_4, r19_5, r19_6):
+    for r in (r19_1, r19_2, r19_3, r19_4, r19_5, r19_5b, r19_6):
         ck.run_rule(r)
